@@ -164,6 +164,29 @@ Build(o, rc, rep) ==
           /\ uri' = Holds(c, rc)
     /\ UNCHANGED enc
 
+(* A host text the parser cannot read back as the host (a bare IPv6 literal, a host with '@' in it ...): "parses back"  *)
+(* cannot be asked, and the builder may refuse.  But when it reports success nothing that was given may be missing:   *)
+(* the text is  [scheme "://"] X [":" port] path ["?" query]  with the host inside X and at most two bytes around it  *)
+(* (a builder that brackets a bare literal is as good as one that does not).  What the object then holds is not      *)
+(* judged.                                                                                                            *)
+IsInfix(s, t) == \E i \in 0..(Len(t) - Len(s)) : SubSeq(t, i + 1, i + Len(s)) = s
+BuildFreeTextOK(o, str) ==
+    LET c == BuildComp(o)
+        pre == IF o.sch # <<>> THEN o.sch \o <<58, 47, 47>> ELSE <<>>
+        tail == (IF o.port # <<>> THEN <<58>> \o o.port ELSE <<>>) \o o.path \o (IF c.q # <<>> THEN <<63>> \o c.q ELSE <<>>)
+    IN \E extra \in 0..2, opt \in 0..1 :
+          LET n == Len(pre) + Len(o.host) + extra + Len(tail) + opt
+          IN /\ Len(str) = n
+             /\ SubSeq(str, 1, Len(pre)) = pre
+             /\ SubSeq(str, n - opt - Len(tail) + 1, n - opt) = tail
+             /\ (opt = 1 => (o.qm = "L" /\ c.q = <<>> /\ str[n] = 63))
+             /\ IsInfix(o.host, SubSeq(str, Len(pre) + 1, Len(pre) + Len(o.host) + extra))
+BuildFree(o, rc, rep) ==
+    /\ Chk((o.qm = "S" => o.params = <<>>) /\ (o.qm = "L" => o.qs = <<>>) /\ (o.qm = "N" => (o.qs = <<>> /\ o.params = <<>>)))
+    /\ Chk(o.port # <<>> => (o.port[1] # 48 /\ PortFits(BuildComp(o))))
+    /\ Chk(rc = 0 => (rep.tot = Len(rep.str) /\ BuildFreeTextOK(o, rep.str)))
+    /\ uri' = NoUri /\ UNCHANGED enc
+
 -----------------------------------------------------------------------------
 (* query string = items joined with '&'; an item is [eq, k, v]: "k" (eq = FALSE, v = <<>>) or "k=v".  A blank item  *)
 (* (no '=' and an empty key) stands for nothing between two '&'.  Iteration yields the non-blank items in order.   *)
